@@ -122,6 +122,56 @@ def decorations(spec):
             yield s
 
 
+def combo_decorations(spec):
+    """Two features combined around renames (not part of `decorations`): original names that collide with NEW names.
+
+    In a spec all names are the pipeline-level (new) names; `ren` maps new -> original. Here the original name of one parameter
+    is the new name of another (a swap p<->q, or a chain p<-q<-q_orig), alone and together with a bound value on the other
+    parameter and a default (signature / PipeFunc level) on the first - any code that looks a name up in the wrong namespace
+    (`_bound`, `_defaults` are keyed by new names, the signature by original names) picks the neighbour's entry.
+    """
+    prod = {o for f in spec["funcs"] for o in f["outs"]}
+    for i, f in enumerate(spec["funcs"]):
+        for p, q in itertools.permutations(f["params"], 2):
+            for shape in ("swap", "chain"):
+                ren = {p: q, q: p} if shape == "swap" else {p: q, q: q + "_orig"}
+                if shape == "swap" and p > q:
+                    plain = False  # the plain swap is symmetric: once per unordered pair
+                else:
+                    plain = True
+                if plain:
+                    s = copy.deepcopy(spec)
+                    s["funcs"][i]["ren"] = dict(ren)
+                    s["deco"] = f"rename-{shape}"
+                    yield s
+                s = copy.deepcopy(spec)
+                s["funcs"][i]["ren"] = dict(ren)
+                s["funcs"][i]["bound"] = {q: "b" + q}
+                s["deco"] = f"rename-{shape}+bound"
+                yield s
+                for kind in ("sigdef", "pfdef"):
+                    if p in prod and kind == "pfdef":
+                        continue
+                    s = copy.deepcopy(spec)
+                    s["funcs"][i]["ren"] = dict(ren)
+                    s["funcs"][i]["bound"] = {q: "b" + q}
+                    s["funcs"][i][kind] = {p: "d" + p}
+                    s["deco"] = f"rename-{shape}+bound+{kind}"
+                    yield s
+                    s = copy.deepcopy(spec)
+                    s["funcs"][i]["ren"] = dict(ren)
+                    s["funcs"][i][kind] = {p: "d" + p}
+                    s["deco"] = f"rename-{shape}+{kind}"
+                    yield s
+        # a parameter whose ORIGINAL name is the new name of the function's own output
+        for p in f["params"]:
+            o = f["outs"][0]
+            s = copy.deepcopy(spec)
+            s["funcs"][i]["ren"] = {p: o, o: o + "_orig"}
+            s["deco"] = "rename-param-from-output-name"
+            yield s
+
+
 # ------------------------------------------------------------------------------------------------
 # building the real pipeline
 # ------------------------------------------------------------------------------------------------
